@@ -149,8 +149,24 @@ def false_loop_design(draw):
       if len(mine) == 1: refs[mine[0]] = R(f"p{b}")
     top["wires"].append([f"p{b}", t])
   blocks = {b: [] for b in range(nb)}
+  # every block also publishes a plain signal computed from the input only, read by the next block: a second,
+  # loop-free carrier for the same block-to-block edges
+  side = draw(st.booleans())
+  if side:
+    for b in range(nb):
+      top["wires"].append([f"q{b}", ["b", w]])
+      blocks[b].append(["assign", R(f"q{b}"), ["inv", ["sig", R("in0")]] if b % 2 else ["sig", R("in0")]])
   for j in range(ns):
     prev = ["sig", R("in0")] if j == 0 else ["sig", refs[j - 1]]
+    if j > 0 and refs[j - 1]["sl"] is not None and draw(st.integers(0, 2)) == 0:
+      # read the WHOLE owner signal and cut the stage value out of it (the writer writes slices, the reader reads
+      # the whole signal)
+      owner = dict(refs[j - 1]); lo = owner["sl"][0]; owner["sl"] = None
+      tw = [t for n_, t in top["wires"] if n_ == owner["sig"]][0][1]
+      whole = ["sig", owner]
+      prev = ["trunc", ["shr", whole, ["const", tw, lo]], w] if tw > w else whole
+    if side and j > 0 and draw(st.booleans()):
+      prev = ["bin", "^", prev, ["sig", R(f"q{(j - 1) % nb}")]]
     if j > 0 and draw(st.integers(0, 4)) == 0:
       nn = f"n{j}"
       top["wires"].append([nn, ["b", w]])
